@@ -187,10 +187,32 @@ func genSoup(t *rapid.T, m *Model, o *soupOpts) string {
 			atChoices = append(atChoices, o.attrs...)
 		}
 	}
+	// names that are not in the HTML atom table (custom elements): known and unknown ones
+	customNames := []string{"my-x", "my-y", "x-a-y", "tag1", "my-zzz", "x-q", "sx", "tagged", "evil-widget", "user-card", "zz", "b-y"}
+	for _, e := range els {
+		if strings.Contains(e, "-") || atomOf(e) == 0 {
+			customNames = append(customNames, e, e)
+		}
+	}
 	n := rapid.IntRange(1, max).Draw(t, "n")
 	var sb strings.Builder
 	var open []string
 	for i := 0; i < n; i++ {
+		if rapid.IntRange(0, 19).Draw(t, "customRun") == 0 {
+			// a run of consecutive custom-element start tags (no standard element in between)
+			for j := rapid.IntRange(2, 3).Draw(t, "runLen"); j > 0; j-- {
+				el := rapid.SampledFrom(customNames).Draw(t, "cel")
+				sb.WriteString("<" + el)
+				for k := rapid.IntRange(0, 2).Draw(t, "cna"); k > 0; k-- {
+					sb.WriteString(" " + genAttr(t, atChoices))
+				}
+				sb.WriteString(">")
+				if rapid.Bool().Draw(t, "ctext") {
+					sb.WriteString("t</" + el + ">")
+				}
+			}
+			continue
+		}
 		switch rapid.IntRange(0, 9).Draw(t, "frag") {
 		case 0, 1, 2:
 			el := lookAlike(t, mangleCase(t, rapid.SampledFrom(elChoices).Draw(t, "el")))
